@@ -374,6 +374,102 @@ async fn run_accept_case_async(case: &Val) -> Val {
                     drop(client);
                 }
             }
+            7 => {
+                // UpdatePeer: [7, addr, [peer_asn, local_asn, hold_time, passive, rs_client, rr_client, cluster id?]]
+                use api::go_bgp_service_server::GoBgpService;
+                let u = ol[2].list();
+                let peer = api::Peer {
+                    conf: Some(api::PeerConf {
+                        neighbor_address: addr.to_string(),
+                        peer_asn: u[0].u32(),
+                        local_asn: u[1].u32(),
+                        ..Default::default()
+                    }),
+                    timers: Some(api::Timers {
+                        config: Some(api::TimersConfig { hold_time: u[2].u64(), ..Default::default() }),
+                        state: None,
+                    }),
+                    transport: Some(api::Transport { passive_mode: u[3].bool(), ..Default::default() }),
+                    route_server: Some(api::RouteServer { route_server_client: u[4].bool(), ..Default::default() }),
+                    route_reflector: Some(api::RouteReflector {
+                        route_reflector_client: u[5].bool(),
+                        route_reflector_cluster_id: u[6]
+                            .list()
+                            .first()
+                            .map(|c| Ipv4Addr::from(c.u32()).to_string())
+                            .unwrap_or_default(),
+                    }),
+                    ..Default::default()
+                };
+                let before: Vec<bool> = {
+                    let g = global.read().await;
+                    match g.peers.get(&addr) {
+                        Some(p) => {
+                            let ctx = p.context.lock().unwrap();
+                            let arb = ctx.conn_arbiter.lock().unwrap();
+                            vec![arb.active_close_tx.is_some(), arb.passive_close_tx.is_some()]
+                        }
+                        None => vec![false, false],
+                    }
+                };
+                let _ = svc
+                    .update_peer(tonic::Request::new(api::UpdatePeerRequest { peer: Some(peer), do_soft_reset_in: false }))
+                    .await;
+                // connections the update tore down: wait for their tasks' bookkeeping
+                let torn: Vec<bool> = {
+                    let g = global.read().await;
+                    match g.peers.get(&addr) {
+                        Some(p) => {
+                            let ctx = p.context.lock().unwrap();
+                            let arb = ctx.conn_arbiter.lock().unwrap();
+                            vec![before[0] && arb.active_close_tx.is_none(), before[1] && arb.passive_close_tx.is_none()]
+                        }
+                        None => before.clone(),
+                    }
+                };
+                for (k, active) in [true, false].into_iter().enumerate() {
+                    if torn[k] {
+                        if let Some((client, h)) = conns.remove(&(addr, active)) {
+                            let _ = tokio::time::timeout(Duration::from_secs(5), h).await;
+                            drop(client);
+                        }
+                    }
+                }
+            }
+            8 => {
+                // the connection (addr, old direction) ends, and while its task is between
+                // apply_disconnect and the final lock of PeerSession::run a new connection
+                // (addr, new direction) is admitted: [8, addr, old, new].  The task is held at
+                // its first lock request until the admission is queued (tokio's RwLock is FIFO).
+                let old_active = ol[2].int() == 0;
+                let role = if ol[3].int() == 0 { Role::Active } else { Role::Passive };
+                if let Some((old_client, old_h)) = conns.remove(&(addr, old_active)) {
+                    let sock = tokio::net::TcpSocket::new_v4().unwrap();
+                    sock.bind(SocketAddr::new(addr, 0)).expect("bind 127.x.y.z");
+                    let (c, sv) = tokio::join!(sock.connect(l4.local_addr().unwrap()), l4.accept());
+                    let (client, server) = (c.unwrap(), sv.unwrap().0);
+                    let guard = global.write().await;
+                    drop(old_client);
+                    // the old task reads the end of the stream and reaches its lock request
+                    tokio::time::sleep(Duration::from_millis(30)).await;
+                    let acc = accept_connection(&global, &tables, server, role);
+                    tokio::pin!(acc);
+                    let _ = futures::poll!(acc.as_mut());
+                    drop(guard);
+                    let admitted = acc.await;
+                    let _ = tokio::time::timeout(Duration::from_secs(5), old_h).await;
+                    match admitted {
+                        Some(session) => {
+                            res = Val::L(vec![session_val(&session)]);
+                            let h = tokio::spawn(session.run(global.clone(), active_tx.clone()));
+                            if let Some(z) = conns.insert((addr, role == Role::Active), (client, h)) {
+                                zombies.push(z.0);
+                            }
+                        }
+                        None => drop(client),
+                    }
+                }
+            }
             t => panic!("verif: bad op tag {}", t),
         }
         let gr = global.read().await;
